@@ -5,5 +5,8 @@ VH_CONFIG("plain_top_shapes", [](vh::Case& c) { c13::shapes_case<Plain>(c, false
 VH_CONFIG("plain_vert_shapes", [](vh::Case& c) { c13::shapes_case<Plain>(c, true); });
 VH_CONFIG("plain_top_4d", [](vh::Case& c) { c13::dim4_case<Plain>(c, false); });
 VH_CONFIG("plain_vert_4d", [](vh::Case& c) { c13::dim4_case<Plain>(c, true); });
+VH_CONFIG("plain_5d", [](vh::Case& c) { c13::dim5_case<Plain>(c); });
+VH_CONFIG("plain_long", [](vh::Case& c) { c13::long_case<Plain>(c); });
 VH_CONFIG("plain_constant", [](vh::Case& c) { c13::betti_case<Plain>(c); });
+VH_CONFIG("plain_file", [](vh::Case& c) { c13::file_case<Plain>(c, 1); });
 VH_MAIN()
